@@ -64,9 +64,11 @@ MANIFEST = {
                  "every step",
 }
 CONFIGS = {
-    "quick": [("pool", 40000)],
-    "thorough": [("pool", 1)],
+    "quick": [("pool", 40000), ("chain", 2500)],
+    "thorough": [("pool", 6), ("chain", 1)],
 }
+CHEAP = ["flip", "shuffle", "or", "xor", "maj", "eq", "one", "atleast",
+         "exact", "atmost", "xorcomp", "majcomp"]
 CHUNK = 150
 
 TRANSFORMS = sorted(registry.TRANSFORMS)
@@ -130,7 +132,33 @@ def _gen_op(rng):
             "g": rng.randrange(4)}
 
 
+def _gen_chain(rng):
+    """A tiny formula and a chain of 11-16 arity-1 transformations (the
+    provenance numbering must keep counting past 9)."""
+    n = rng.randint(1, 3)
+    clauses = [[rng.choice([1, -1]) * rng.randint(1, n)
+                for _ in range(rng.randint(1, 2))]
+               for _ in range(rng.randint(1, 3))]
+    ops = []
+    for _ in range(rng.choice([3, 9, 10, 11, 12, 13, 16])):
+        ops.append({"op": "transform", "name": rng.choice(CHEAP),
+                    "src": 0, "src_last": True, "arity1": True,
+                    "seed": rng.randrange(2 ** 30)})
+        if rng.random() < 0.15:
+            ops.append({"op": "mutate_formula", "dst": rng.randrange(8),
+                        "how": rng.choice(["header_new", "add_clause"])})
+    return {"formulas": [{"n": n, "clauses": clauses, "class": "CNF",
+                          "named": rng.random() < 0.3,
+                          "description": rng.choice([None, "chain base"])}],
+            "graphs": {"simple": [{"n": 1, "edges": []}],
+                       "dag": [{"n": 1, "edges": []}],
+                       "bipartite": [{"L": 1, "R": 1, "edges": []}]},
+            "nx": False, "lists": [[1], [0], [0]], "ops": ops}
+
+
 def generate(rng, config):
+    if config == "chain":
+        return _gen_chain(rng)
     return {"formulas": [_gen_formula(rng)
                          for _ in range(rng.choice([2, 3]))],
             "graphs": {"simple": [registry.g_simple(rng, 5, nmin=1),
@@ -265,10 +293,21 @@ def execute(case, ctx):
                 ctx.note("transformation skipped (no small CNF in the pool)")
                 continue
             src = small[op["src"] % len(small)]
+            if op.get("src_last"):
+                src = small[-1]
             F = pool.items[src][1]
             tname = op["name"]
             tgen, tapply, tcount = registry.TRANSFORMS[tname]
             tp = tgen(_random.Random(op["seed"]), F.number_of_variables())
+            if op.get("arity1"):
+                # keep the chain small: arity 1, identity-like compression
+                for key in ("k", "N"):
+                    if key in tp:
+                        tp[key] = 1
+                if "B" in tp:
+                    nv = F.number_of_variables()
+                    tp["B"] = {"L": nv, "R": max(1, nv),
+                               "edges": [[u, u] for u in range(1, nv + 1)]}
             what = "transform:" + tname
             with installed(SimRandom(op["seed"])):
                 r = call(tapply, F, tp)
@@ -289,6 +328,10 @@ def execute(case, ctx):
                 results.add(j)
                 if src in results:
                     chained += 1
+                nt = sum(1 for k in G.header if k.startswith(
+                    "transformation "))
+                if nt >= 10:
+                    ctx.probe("chain of >= 10 transformations")
                 ctx.probe("transform:" + tname)
         elif kind == "shuffle_explicit":
             src = forms[op["src"] % len(forms)]
